@@ -27,7 +27,7 @@ spec fn apart(a: Range<usize>, b: Range<usize>) -> bool {
     a.end < b.start || b.end < a.start
 }
 
-/// `a` and `b` overlap or are contiguous (the predicate of the `pop_if` closure)
+/// `a` and `b` overlap or are contiguous (the merge condition of `push_or_merge_range`)
 spec fn touches(a: Range<usize>, b: Range<usize>) -> bool {
     a.start <= b.end && a.end >= b.start
 }
@@ -36,110 +36,81 @@ spec fn hull(a: Range<usize>, b: Range<usize>) -> Range<usize> {
     (if a.start <= b.start { a.start } else { b.start })..(if a.end >= b.end { a.end } else { b.end })
 }
 
-/// state of the vector after the merge-or-push step, before the sink loop
-spec fn after_push(old: Seq<Range<usize>>, new: Range<usize>, base: Seq<Range<usize>>) -> bool {
-    if old.len() > 0 && touches(new, old.last()) {
-        base == old.drop_last().push(hull(new, old.last()))
-    } else {
-        base == old.push(new)
-    }
+spec fn within(r: Range<usize>, c: int) -> bool {
+    r.start <= c < r.end
 }
 
-proof fn lemma_pushed(old: Seq<Range<usize>>, new: Range<usize>, base: Seq<Range<usize>>)
+/// one merge step: range i touches `new`; it leaves the vector and `new` becomes the hull
+proof fn lemma_merge_step(rs: Seq<Range<usize>>, i: int, new: Range<usize>)
     requires
-        ranges_wf(old),
+        ranges_wf(rs),
+        0 <= i < rs.len(),
         new.start < new.end,
-        forall|i: int| 0 <= i < old.len() - 1 ==> apart(#[trigger] old[i], new),
-        after_push(old, new, base),
+        touches(new, rs[i]),
+        forall|j: int| 0 <= j < i ==> apart(#[trigger] rs[j], new),
     ensures
-        base.len() >= 1,
-        ranges_wf(base.drop_last()),
-        base.last().start < base.last().end,
-        forall|a: int| 0 <= a < base.len() - 1 ==> apart(#[trigger] base[a], base.last()),
-        forall|c: int| covered(base, c) <==> (covered(old, c) || new.start <= c < new.end),
+        ranges_wf(rs.remove(i)),
+        hull(new, rs[i]).start < hull(new, rs[i]).end,
+        forall|j: int| 0 <= j < i ==> apart(#[trigger] rs.remove(i)[j], hull(new, rs[i])),
+        forall|c: int| (covered(rs.remove(i), c) || within(hull(new, rs[i]), c)) <==> (covered(rs, c) || within(new, c)),
 {
-    let m = base.len() - 1;
-    if old.len() > 0 && touches(new, old.last()) {
-        let l = old.last();
-        assert(m == old.len() - 1);
-        assert forall|c: int| covered(base, c) <==> (covered(old, c) || new.start <= c < new.end) by {
-            if covered(base, c) {
-                let i = choose|i: int| 0 <= i < base.len() && (#[trigger] base[i]).start <= c < base[i].end;
-                if i < m { assert(old[i] == base[i]); } else { assert(old[m].start <= c < old[m].end || new.start <= c < new.end); }
-            }
-            if covered(old, c) {
-                let i = choose|i: int| 0 <= i < old.len() && (#[trigger] old[i]).start <= c < old[i].end;
-                if i < m { assert(base[i] == old[i]); } else { assert(base[m].start <= c < base[m].end); }
-            }
-            if new.start <= c < new.end { assert(base[m].start <= c < base[m].end); }
+    let r2 = rs.remove(i);
+    let n2 = hull(new, rs[i]);
+    assert forall|j: int| 0 <= j < r2.len() implies r2[j] == (if j < i { rs[j] } else { rs[j + 1] }) by {}
+    assert forall|j: int| 0 <= j < i implies apart(#[trigger] r2[j], n2) by {
+        assert(apart(rs[j], new));
+        assert(rs[j].end < rs[i].start);
+    }
+    assert forall|c: int| (covered(r2, c) || within(n2, c)) <==> (covered(rs, c) || within(new, c)) by {
+        if covered(r2, c) {
+            let j = choose|j: int| 0 <= j < r2.len() && (#[trigger] r2[j]).start <= c < r2[j].end;
+            if j < i { assert(rs[j] == r2[j]); } else { assert(rs[j + 1] == r2[j]); }
         }
-    } else {
-        assert(m == old.len());
-        assert(base.drop_last() == old);
-        assert forall|c: int| covered(base, c) <==> (covered(old, c) || new.start <= c < new.end) by {
-            if covered(base, c) {
-                let i = choose|i: int| 0 <= i < base.len() && (#[trigger] base[i]).start <= c < base[i].end;
-                if i < m { assert(old[i] == base[i]); }
-            }
-            if covered(old, c) {
-                let i = choose|i: int| 0 <= i < old.len() && (#[trigger] old[i]).start <= c < old[i].end;
-                assert(base[i] == old[i]);
-            }
-            if new.start <= c < new.end { assert(base[m].start <= c < base[m].end); }
+        if covered(rs, c) {
+            let j = choose|j: int| 0 <= j < rs.len() && (#[trigger] rs[j]).start <= c < rs[j].end;
+            if j < i { assert(r2[j] == rs[j]); } else if j > i { assert(r2[j - 1] == rs[j]); }
         }
     }
 }
 
-/// the sink loop has stopped at position `i`: `fin` is `base` with its last element moved to `i`
-proof fn lemma_sunk(base: Seq<Range<usize>>, fin: Seq<Range<usize>>, i: int)
+/// the final insertion: every range is apart from `new`, `p` is the sorted position
+proof fn lemma_inserted(rs: Seq<Range<usize>>, p: int, new: Range<usize>)
     requires
-        base.len() >= 1,
-        fin.len() == base.len(),
-        0 <= i < base.len(),
-        ranges_wf(base.drop_last()),
-        base.last().start < base.last().end,
-        forall|a: int| 0 <= a < base.len() - 1 ==> apart(#[trigger] base[a], base.last()),
-        forall|j: int| 0 <= j < i ==> fin[j] == base[j],
-        fin[i] == base.last(),
-        forall|j: int| i < j < base.len() ==> fin[j] == base[j - 1],
-        forall|j: int| i <= j < base.len() - 1 ==> base.last().start <= (#[trigger] base[j]).start,
-        i == 0 || fin[i].start >= fin[i - 1].start,
+        ranges_wf(rs),
+        new.start < new.end,
+        forall|j: int| 0 <= j < rs.len() ==> apart(#[trigger] rs[j], new),
+        0 <= p <= rs.len(),
+        forall|j: int| 0 <= j < p ==> (#[trigger] rs[j]).start < new.start,
+        p < rs.len() ==> rs[p].start >= new.start,
     ensures
-        ranges_wf(fin),
-        forall|c: int| covered(fin, c) <==> covered(base, c),
+        ranges_wf(rs.insert(p, new)),
+        forall|c: int| covered(rs.insert(p, new), c) <==> (covered(rs, c) || within(new, c)),
 {
-    let m = base.len() - 1;
-    let nw = base.last();
-    let b = base.drop_last();
-    assert forall|a: int| 0 <= a < m implies b[a] == base[a] by {}
-    assert forall|x: int, y: int| 0 <= x < y < fin.len() implies (#[trigger] fin[x]).end < (#[trigger] fin[y]).start by {
-        if y < i {
-            assert(fin[x] == b[x] && fin[y] == b[y]);
-        } else if y == i {
-            assert(fin[x] == b[x]);
-            assert(apart(base[x], nw));
-            if i > 0 { assert(fin[i - 1] == b[i - 1]); }
-        } else if x == i {
-            assert(fin[y] == b[y - 1]);
-            assert(apart(base[y - 1], nw));
-        } else if x < i {
-            assert(fin[x] == b[x] && fin[y] == b[y - 1]);
+    let r2 = rs.insert(p, new);
+    assert forall|j: int| 0 <= j < r2.len() implies r2[j] == (if j < p { rs[j] } else if j == p { new } else { rs[j - 1] }) by {}
+    assert forall|x: int, y: int| 0 <= x < y < r2.len() implies (#[trigger] r2[x]).end < (#[trigger] r2[y]).start by {
+        if y < p {
+        } else if y == p {
+            assert(apart(rs[x], new));
+        } else if x == p {
+            assert(apart(rs[y - 1], new));
+            if y - 1 > p { assert(rs[p].end < rs[y - 1].start); }
+        } else if x < p {
+            assert(rs[x].end < rs[y - 1].start);
         } else {
-            assert(fin[x] == b[x - 1] && fin[y] == b[y - 1]);
+            assert(rs[x - 1].end < rs[y - 1].start);
         }
     }
-    assert forall|x: int| 0 <= x < fin.len() implies (#[trigger] fin[x]).start < fin[x].end by {
-        if x < i { assert(fin[x] == b[x]); } else if x > i { assert(fin[x] == b[x - 1]); }
-    }
-    assert forall|c: int| covered(fin, c) <==> covered(base, c) by {
-        if covered(fin, c) {
-            let x = choose|x: int| 0 <= x < fin.len() && (#[trigger] fin[x]).start <= c < fin[x].end;
-            if x < i { assert(base[x] == fin[x]); } else if x == i { assert(base[m] == fin[x]); } else { assert(base[x - 1] == fin[x]); }
+    assert forall|c: int| covered(r2, c) <==> (covered(rs, c) || within(new, c)) by {
+        if covered(r2, c) {
+            let j = choose|j: int| 0 <= j < r2.len() && (#[trigger] r2[j]).start <= c < r2[j].end;
+            if j < p { assert(rs[j] == r2[j]); } else if j > p { assert(rs[j - 1] == r2[j]); }
         }
-        if covered(base, c) {
-            let x = choose|x: int| 0 <= x < base.len() && (#[trigger] base[x]).start <= c < base[x].end;
-            if x < i { assert(fin[x] == base[x]); } else if x == m { assert(fin[i] == base[x]); } else { assert(fin[x + 1] == base[x]); }
+        if covered(rs, c) {
+            let j = choose|j: int| 0 <= j < rs.len() && (#[trigger] rs[j]).start <= c < rs[j].end;
+            if j < p { assert(r2[j] == rs[j]); } else { assert(r2[j + 1] == rs[j]); }
         }
+        if within(new, c) { assert(r2[p] == new); }
     }
 }
 
@@ -147,99 +118,41 @@ proof fn lemma_sunk(base: Seq<Range<usize>>, fin: Seq<Range<usize>>, i: int)
 //@contract
     requires
         ranges_wf(old(ranges)@), // [Dc.pre.ranges_wf]
-        new.start < new.end, // [Dc.pre.new_nonempty]
-        forall|i: int| 0 <= i < old(ranges)@.len() - 1 ==> apart(#[trigger] old(ranges)@[i], new), // [Dc.pre.apart_from_non_last]
     ensures
         ranges_wf(final(ranges)@), // [Dc.post.ranges_wf]
         forall|c: int| covered(final(ranges)@, c) <==> (covered(old(ranges)@, c) || new.start <= c < new.end), // [Dc.post.union_preserved]
-//@closure rule=E12 find=<<|range|>> params=<<|range: &mut Range<usize>|>> ret=<<b: bool>>
-            ensures
-                *final(range) == *old(range),
-                b == (new.start <= old(range).end && new.end >= old(range).start), // [Dc.closure.touches]
-//@edit rule=ghost before=<<if let Some(overlapping) =>>
+        new.start >= new.end ==> final(ranges)@ == old(ranges)@, // [Dc.post.empty_new_is_noop]
+//@edit rule=ghost before=<<let mut i = 0;>>
     let ghost new0 = new;
-//@edit rule=ghost before=<<let mut i = ranges.len() - 1;>>
-    let ghost base = ranges@;
-    let ghost m = base.len() - 1;
-    let ghost nw = base[m];
-    proof {
-        if old(ranges)@.len() > 0 {
-            assert(old(ranges)@.drop_last().push(old(ranges)@.last()) =~= old(ranges)@);
-        }
-        assert(after_push(old(ranges)@, new0, base));
-        lemma_pushed(old(ranges)@, new0, base);
-    }
-//@edit rule=ghost after=<<ranges[i - 1].start>>
-        invariant
-            ranges@.len() == m + 1,
-            base.len() == m + 1,
-            0 <= i <= m,
-            nw == base[m],
-            ranges_wf(base.drop_last()),
-            nw.start < nw.end,
-            forall|a: int| 0 <= a < m ==> apart(#[trigger] base[a], nw),
-            forall|c: int| covered(base, c) <==> (covered(old(ranges)@, c) || new0.start <= c < new0.end),
-            forall|j: int| 0 <= j < i ==> ranges@[j] == base[j], // [Dc.inv.prefix_unchanged]
-            ranges@[i as int] == nw, // [Dc.inv.new_at_i]
-            forall|j: int| i < j <= m ==> ranges@[j] == base[j - 1], // [Dc.inv.suffix_shifted]
-            forall|j: int| i <= j < m ==> nw.start <= (#[trigger] base[j]).start, // [Dc.inv.new_before_suffix]
-        decreases i, // [Dc.term.sink_loop]
-//@edit rule=ghost after=<<i -= 1; }>>
-    proof {
-        lemma_sunk(base, ranges@, i as int);
-    }
-//@end
-
-/// position in the new string before op k (the new-side cursor of the tiling)
-spec fn cursor(ops: Seq<DiffOp>, k: int) -> int {
-    if 0 <= k < ops.len() { similar::op_new_index(ops[k]) }
-    else if ops.len() == 0 { 0 }
-    else { similar::op_new_index(ops.last()) + similar::op_new_len(ops.last()) }
-}
-
-/// What the callers in `line_diff` guarantee (`new` starts at or after the start of the last range)
-/// implies D-c's precondition.
-proof fn lemma_caller_order(ranges: Seq<Range<usize>>, new: Range<usize>)
-    requires
-        ranges_wf(ranges),
-        ranges.len() > 0 ==> new.start >= ranges.last().start,
-    ensures
-        forall|i: int| 0 <= i < ranges.len() - 1 ==> apart(#[trigger] ranges[i], new),
-{
-}
-
-//@unit id=Dd file=src/diff_parser.rs fn=line_diff ret=r
-//@contract
-    ensures
-        ranges_wf(r@), // [Dd.post.ranges_wf]
-//@edit rule=ghost before=<<for op in diff.ops()>>
-    let ghost ops = diff.spec_ops();
-    let ghost n = new@.len() as int;
-    let ghost bmax: int = if new.len() == 0 { 0 } else { new.len() - 1 };
-//@edit rule=E15 find=<<for op in diff.ops()>>
-for op in it: diff.ops()
-        invariant
-            ops == diff.spec_ops(),
-            n == new@.len(),
-            n <= new.len(),
-            bmax == (if new.len() == 0 { 0 } else { new.len() - 1 }),
-            similar::ops_tile_new(ops, n),
-            ranges_wf(result@), // [Dd.inv.ranges_wf]
-            forall|x: int| covered(result@, x) ==> x <= cursor(ops, it.index@ as int) && x <= bmax, // [Dd.inv.covered_up_to_cursor]
-            0 <= it.index@ <= ops.len(),
-//@edit rule=ghost before=<<match op {>>
-        let ghost k = it.index@ as int;
-        let ghost res0 = result@;
+//@edit rule=ghost after=<<while i < ranges.len() {>>
         proof {
-            assert(*op == ops[k]);
-            assert(similar::op_new_index(ops[k]) + similar::op_new_len(ops[k]) <= n);
-            assert(cursor(ops, k + 1) == similar::op_new_index(ops[k]) + similar::op_new_len(ops[k]));
-            if res0.len() > 0 {
-                // the first column of the last range is covered, hence at most the cursor
-                assert(covered(res0, res0.last().start as int));
+            if touches(new, ranges@[i as int]) {
+                lemma_merge_step(ranges@, i as int, new);
             }
-            assert forall|i: int| 0 <= i < res0.len() - 1 implies (#[trigger] res0[i]).end < res0.last().start by {}
         }
+//@edit rule=ghost after=<<while i < ranges.len()>>
+        invariant
+            ranges_wf(ranges@), // [Dc.inv.ranges_wf]
+            new.start < new.end, // [Dc.inv.new_nonempty]
+            0 <= i <= ranges@.len(),
+            forall|j: int| 0 <= j < i ==> apart(#[trigger] ranges@[j], new), // [Dc.inv.scanned_are_apart]
+            forall|c: int| (covered(ranges@, c) || within(new, c)) <==> (covered(old(ranges)@, c) || within(new0, c)), // [Dc.inv.union_preserved]
+        decreases ranges@.len() - i, // [Dc.term.merge_loop]
+//@edit rule=ghost before=<<{ position += 1;>>
+        invariant
+            ranges_wf(ranges@),
+            new.start < new.end,
+            forall|j: int| 0 <= j < ranges@.len() ==> apart(#[trigger] ranges@[j], new), // [Dc.inv.all_apart]
+            forall|c: int| (covered(ranges@, c) || within(new, c)) <==> (covered(old(ranges)@, c) || within(new0, c)),
+            0 <= position <= ranges@.len(),
+            forall|j: int| 0 <= j < position ==> (#[trigger] ranges@[j]).start < new.start, // [Dc.inv.position_after_smaller]
+        decreases ranges@.len() - position, // [Dc.term.position_loop]
+//@edit rule=ghost before=<<ranges.insert(>>
+    proof {
+        if 0 <= position <= ranges@.len() && (position < ranges@.len() ==> ranges@[position as int].start >= new.start) {
+            lemma_inserted(ranges@, position as int, new);
+        }
+    }
 //@end
 
 } // verus!
